@@ -57,7 +57,7 @@ type Thread struct {
 	pc      uintptr
 	label   string
 	resume  chan struct{}
-	wokenBy int // thread whose step woke this one from a native wait (-1 none)
+	wokenBy int  // thread whose step woke this one from a native wait (-1 none)
 	fresh   bool // woken and not yet run since
 	daemon  bool // service goroutine of the code under test: the run does not wait for it
 }
@@ -68,6 +68,7 @@ type Token *Thread
 type muState struct {
 	writer  int // thread id+1
 	readers int
+	pc      uintptr // call site of the last acquisition
 }
 
 // Decision is one recorded choice: a scheduling decision among Enabled
@@ -99,7 +100,8 @@ type Sched struct {
 	Diverged  string   // replay divergence (harness error)
 	Horizon   time.Duration
 	MaxSteps  int
-	Overrun   bool // MaxSteps exceeded
+	Overrun   bool     // MaxSteps exceeded
+	Panics    []string // panics that escaped a controlled thread
 	StepsRun  int
 	PointsHit int
 
@@ -119,14 +121,14 @@ var S *Sched
 // branch points) ----
 
 var (
-	confMu    stdsync.Mutex
-	conflict  = map[uintptr]struct{}{}
-	confGrew  bool
+	confMu   stdsync.Mutex
+	conflict = map[uintptr]struct{}{}
+	confGrew bool
 	// AllPoints disables conflict reduction: every point parks.
 	AllPoints bool
 	// Focus, when non-nil, restricts branch points to call sites whose
 	// function name contains one of the substrings (declared under-approximation).
-	Focus []string
+	Focus      []string
 	focusCache = map[uintptr]bool{}
 )
 
@@ -295,6 +297,26 @@ func (s *Sched) applyLock(t *Thread, kind OpKind, obj unsafe.Pointer) {
 	} else {
 		m.writer = t.id + 1
 	}
+	m.pc = t.pc
+}
+
+// Held lists the locks that are held according to the lock model (call after
+// Run): a lock still held when every thread has finished was leaked.
+func (s *Sched) Held() []string {
+	s.mu.Lock()
+	defer s.mu.Unlock()
+	var out []string
+	for _, m := range s.mus {
+		if m.writer != 0 || m.readers > 0 {
+			who := "readers"
+			if m.writer != 0 {
+				who = s.threads[m.writer-1].name
+			}
+			out = append(out, fmt.Sprintf("%s@%s", who, pcLabel(m.pc)))
+		}
+	}
+	sort.Strings(out)
+	return out
 }
 
 // Point is called by the shims before a sync operation on obj.
@@ -315,6 +337,7 @@ func Point(kind OpKind, obj unsafe.Pointer) {
 	isLock := kind == OpLock || kind == OpRLock
 	if !branch && (!isLock || s.lockFree(kind, obj)) {
 		if isLock {
+			t.pc = pc
 			s.applyLock(t, kind, obj)
 		}
 		s.mu.Unlock()
@@ -450,6 +473,11 @@ func spawn(name string, fn func(), daemon bool) {
 	go func() {
 		<-t.resume
 		defer func() {
+			if p := recover(); p != nil {
+				s.mu.Lock()
+				s.Panics = append(s.Panics, fmt.Sprintf("%s: %v", t.name, p))
+				s.mu.Unlock()
+			}
 			s.mu.Lock()
 			t.state = stDone
 			s.mu.Unlock()
